@@ -1234,6 +1234,10 @@ func (p *BinaryProtocol) ReadBaseTypeWithDesc(desc *proto.TypeDescriptor, hasMes
 		}
 		// read repeat until sumLength equals MessageLength
 		start := p.Read
+		// nothing inside the message may be read past its end: ReadList/ReadMap stop at the end of
+		// the buffer (restored below; an error aborts the whole read)
+		full := p.Buf
+		p.Buf = full[:start+messageLength]
 		for p.Read < start+messageLength {
 			fieldNumber, wireType, tagLen, fieldTagErr := p.ConsumeTagWithoutMove()
 			if fieldTagErr != nil {
@@ -1270,6 +1274,7 @@ func (p *BinaryProtocol) ReadBaseTypeWithDesc(desc *proto.TypeDescriptor, hasMes
 				retFieldID[field.Number()] = v
 			}
 		}
+		p.Buf = full
 		if useFieldName {
 			return retString, nil
 		} else {
